@@ -285,8 +285,14 @@ def _hist_case(draw, tier):
     # place and assigns it again (a power sweep as users write it)
     p_inplace = st.fixed_dictionaries(dict(
         op=st.just("P_inplace"), factor=st.sampled_from([0.25, 4.0, 9.0])))
+    # bad_P: a power assignment the library must refuse (an entry <= 0, or
+    # a wrong length); the solver stays exactly as it was
+    bad_p = st.fixed_dictionaries(dict(
+        op=st.just("bad_P"), how=st.sampled_from(["negative", "zero",
+                                                   "length", "scalar0"]),
+        pvals=_pvals()))
     setters = [_op_setP(), _op_setP(), _op_randomizeF(), _op_set_precoders(),
-               _op_set_rx(), p_inplace]
+               _op_set_rx(), p_inplace, bad_p]
     first = [_op_randomizeF(), _op_set_precoders()]
     if cls != "Base":
         setters.append(_op_solve())
@@ -1063,6 +1069,27 @@ def _apply(ctx, solver, model, cls, op, tags, opi):
                     ctx.nontrivial(True)
                 model.read_derived = True
         return
+
+    if kind == "bad_P":
+        v = [float(x) for x in op["pvals"][:K]]
+        how = op["how"]
+        if how == "negative":
+            arg = list(v)
+            arg[-1] = -abs(arg[-1])
+        elif how == "zero":
+            arg = np.array(v)
+            arg[0] = 0.0
+        elif how == "length":
+            arg = list(v) + [1.0]
+        else:
+            arg = 0.0
+        try:
+            solver.P = arg
+        except ValueError:
+            ctx.label("bad_P_refused:" + how)
+            return          # the model is unchanged: so must the solver be
+        raise Violation("bad_P_accepted", "solver.P = %r was accepted" %
+                        (arg,), tags)
 
     if kind == "P_inplace":
         arr = getattr(model, "caller_P", None)
